@@ -445,6 +445,8 @@ pub struct Emitted {
     pub sender: Option<(usize, u32, u64)>,
     /// Referenced server entity.
     pub reference: Option<u64>,
+    /// Clients that could see the referenced entity when the event was emitted.
+    pub ref_visible_at_emit: BTreeSet<usize>,
     pub emit_frame: u32,
 }
 
@@ -730,6 +732,9 @@ impl EvCell {
                     client_kind: None,
                     recipients,
                     sender: None,
+                    ref_visible_at_emit: reference
+                        .map(|e| (0..x.sim.clients.len()).filter(|&c| x.sim.visible_now(c, e.to_bits())).collect())
+                        .unwrap_or_default(),
                     reference: reference.map(|e| e.to_bits()),
                     emit_frame: x.sim.server_frames,
                 });
@@ -787,6 +792,7 @@ impl EvCell {
                     client_kind: Some(kind),
                     recipients: BTreeSet::new(),
                     sender: Some((c, session, conn.to_bits())),
+                    ref_visible_at_emit: BTreeSet::new(),
                     reference: server_entity.map(|e| e.to_bits()),
                     emit_frame: x.sim.server_frames,
                 });
@@ -1194,8 +1200,11 @@ impl EvCell {
                         }
                         if let Some(r) = em.reference {
                             // An event whose reference cannot be resolved any more is withheld.
+                            // (an entity the recipient could not see at emission has no
+                            // counterpart to translate to: the event is refused on arrival)
                             let still = x.sim.server_snap().contains_key(&r)
-                                && x.sim.visible_now(c, r);
+                                && x.sim.visible_now(c, r)
+                                && em.ref_visible_at_emit.contains(&c);
                             if !still {
                                 continue;
                             }
